@@ -247,38 +247,43 @@ def cmd_tests():
     print(f"{len(allm)} mutants, {len(surv)} pass the test suite ({time.time() - t:.0f}s)")
 
 
+def _check_one(args):
+    m, = args
+    w = mp.current_process()._identity[0] if mp.current_process()._identity else 0
+    repo = _scratch(f"c{w}")
+    f = repo / m["file"]
+    orig = Path("/repo", m["file"]).read_text()
+    f.write_text(m["src"])
+    caught = None
+    ran = []
+    t = time.time()
+    try:
+        for pid in FILES[m["file"]]:
+            p = subprocess.run(["/venv/bin/python", "-m", "vpbt", pid, "--tier", "quick", "--no-evidence", "--nproc", "4"], cwd=VERIF, capture_output=True, text=True, timeout=2400, env=dict(os.environ, VERIF_REPO=str(repo), VPBT_SPEC_STRIDE="3", VPBT_FOUND_DIR=str(SCR / f"found{w}")))
+            ran.append((pid, p.returncode))
+            if p.returncode == 1:
+                sig = next((l.replace("violation-detail: ", "").split(" :: ")[0] for l in p.stdout.splitlines() if l.startswith("violation-detail")), "")
+                caught = (pid, sig)
+                break
+            if p.returncode == 2:
+                caught = (pid, "HARNESS-ERROR " + (p.stdout.strip().splitlines() or [""])[-1][:100])
+                break
+    finally:
+        f.write_text(orig)
+    return m["id"], dict(file=m["file"], desc=m["desc"], caught=caught, ran=ran, wall=round(time.time() - t))
+
+
 def cmd_checks(only=None):
     allm = {m["id"]: m for m in json.loads((OUT / "mutants.json").read_text())}
     surv = json.loads((OUT / "survivors.json").read_text())
     resf = OUT / "results.json"
     results = json.loads(resf.read_text()) if resf.exists() else {}
-    repo = _scratch("c")
-    for s in surv:
-        if s["id"] in results or (only and only not in s["id"]):
-            continue
-        m = allm[s["id"]]
-        f = repo / m["file"]
-        orig = Path("/repo", m["file"]).read_text()
-        f.write_text(m["src"])
-        caught = None
-        ran = []
-        t = time.time()
-        try:
-            for pid in FILES[m["file"]]:
-                p = subprocess.run(["/venv/bin/python", "-m", "vpbt", pid, "--tier", "quick", "--no-evidence"], cwd=VERIF, capture_output=True, text=True, timeout=1500, env=dict(os.environ, VERIF_REPO=str(repo), VPBT_SPEC_STRIDE="3"))
-                ran.append((pid, p.returncode))
-                if p.returncode == 1:
-                    sig = next((l.replace("violation-detail: ", "").split(" :: ")[0] for l in p.stdout.splitlines() if l.startswith("violation-detail")), "")
-                    caught = (pid, sig)
-                    break
-                if p.returncode == 2:
-                    caught = (pid, "HARNESS-ERROR " + (p.stdout.strip().splitlines() or [""])[-1][:100])
-                    break
-        finally:
-            f.write_text(orig)
-        results[s["id"]] = dict(file=m["file"], desc=m["desc"], caught=caught, ran=ran, wall=round(time.time() - t))
-        resf.write_text(json.dumps(results, indent=1))
-        print(s["id"], m["desc"][:70], "->", caught, flush=True)
+    todo = [(allm[s["id"]],) for s in surv if s["id"] not in results and (not only or only in s["id"])]
+    with mp.get_context("fork").Pool(4) as pool:
+        for mid, r in pool.imap_unordered(_check_one, todo, chunksize=1):
+            results[mid] = r
+            resf.write_text(json.dumps(results, indent=1))
+            print(mid, r["desc"][:70], "->", r["caught"], r["wall"], flush=True)
     shutil.rmtree(SCR, ignore_errors=True)
 
 
